@@ -7,6 +7,7 @@
 -/
 import Gama.Lemmas.Ls.EnvLindep
 import Gama.Lemmas.Ls.EnvAnswer
+import Gama.Lemmas.Ls.EnvRank
 import Gama.Lemmas.Ls.EnvExamples
 namespace Gama.Props.C20
 open Gama Gama.Ls Gama.Ls.Env Gama.LS Matrix
@@ -54,13 +55,26 @@ theorem C20_env_pivot_nonneg (tol : K) (m n : ℕ) (At : DMat K) (bt : Array K) 
     (hU : FactUnambiguous sq tol m n At bt o) (k : Fin n) : 0 ≤ Df sq (NF sq tol m n At bt o) tol k :=
   gram_pivot_nonneg (NF_gram sq tol m n At bt o) (isLDL_model sq hU) k.2
 
-/-
-  FULL STATEMENT still open (`_partial` above in the sense that the count is related to
-  `defect()` but not yet to `n − rank A`): `defect = n − rank Ã` and "deleting the flagged
-  columns leaves a full-column-rank matrix".  Both follow from `C20_env_lindep_true` (the
-  unflagged columns are independent: the last column with a non-zero coefficient in a vanishing
-  combination would lie in the span of the earlier ones) plus Mathlib's rank API; not done.
--/
+/-- **C20 (envelope)**: `defect() = n − rank` : `rank Ã + defect() = n` for the homogenised design
+    matrix in the numbering of the problem (`rank (W A) = rank A` for the invertible `W`) -/
+theorem C20_env_defect_rank (tol stol : K) (m n : ℕ) (A : DMat K) (b : Array K) (At : DMat K) (bt : Array K)
+    (reg : Reg) (o : EnvOrd) (hO : OrdOK n o) (hU : FactUnambiguous sq tol m n At bt o) (htol : 0 < tol) :
+    (toMatrix m n At).rank + (@envCore K (fieldScalar sq) tol stol m n A b At bt reg o).defect = n := by
+  have h := rank_add_defect sq tol m n At bt o hU htol
+  rw [ApM_eq_submatrix sq tol m n At bt o hO] at h
+  have e : ((toMatrix m n At).submatrix id hO.equiv).rank = (toMatrix m n At).rank :=
+    Matrix.rank_submatrix (toMatrix m n At) (Equiv.refl _) hO.equiv
+  rw [e] at h
+  exact h
+
+/-- **C20 (envelope)**: deleting the flagged unknowns leaves a design matrix of full column rank —
+    a vanishing combination of the unflagged columns has all coefficients 0 -/
+theorem C20_env_removal_full_rank (tol : K) (m n : ℕ) (At : DMat K) (bt : Array K) (o : EnvOrd)
+    (hU : FactUnambiguous sq tol m n At bt o) (c : ℕ → K)
+    (hsum : ∑ j ∈ (Finset.range n).filter (fun j => Df sq (NF sq tol m n At bt o) tol j ≠ 0),
+      c j • colV m (@factor K (fieldScalar sq) tol m n At bt o).Ap j = 0) :
+    ∀ j < n, Df sq (NF sq tol m n At bt o) tol j ≠ 0 → c j = 0 :=
+  unflagged_independent (NF_gram sq tol m n At bt o) (isLDL_model sq hU) c n le_rfl hsum
 
 /-! ### the defect found in `AdjEnvelope::lindep` (fixed in repo commit fcb9aa0)
 
